@@ -699,9 +699,13 @@ def run(ctx):
     else:
         side_ok += 1
     # the Coq specification decoders (Spec/Format*.v) on the structures of the written files and of reference files
-    spec_viol, spec_cov = spec_tie(H, ctx, structs)
+    # ... and, at the same time (separate coqc processes), the Coq whole-file walker on a sample of the complete files
+    import concurrent.futures as _cf
+    with _cf.ThreadPoolExecutor(1) as _ex:
+        _fut = _ex.submit(walk_tie.finish)
+        spec_viol, spec_cov = spec_tie(H, ctx, structs)
+        walk_viol, walk_cov = _fut.result()
     viol += spec_viol
-    walk_viol, walk_cov = walk_tie.finish()
     viol += walk_viol
     cov = dict(evaluations=nfiles, distinct_nontrivial=len(nontrivial),
                rule="one evaluation = one closed file written by the real library from a generated API history, walked by the independent decoder "
